@@ -135,6 +135,10 @@ where
             self.add_reference_sequences_until(reference_sequence_count - 1);
         }
 
+        for reference_sequence in &mut self.reference_sequences {
+            reference_sequence.finish(self.min_shift, self.depth);
+        }
+
         let mut builder = Index::builder()
             .set_min_shift(self.min_shift)
             .set_depth(self.depth)
